@@ -42,14 +42,42 @@ structure Entry where
   url : Nat
 deriving Repr, DecidableEq
 
+/-- One element of `blocked_services` in a blocked-service index (`indexRespService`). -/
+inductive SvcEntry where
+  /-- a JSON `null`: a nil `*indexRespService` -/
+  | null
+  /-- `NewBlockedServiceID` refuses the id (or, which never happens, the rules do not compile) -/
+  | badId
+  /-- converts -/
+  | ok
+deriving Repr, DecidableEq
+
+/-- How `serviceblock.indexResp.toInternal` ends. -/
+inductive SvcRes where
+  | ok
+  | err
+  /-- nil-pointer dereference: `Refresh` does not return -/
+  | panic
+deriving Repr, DecidableEq
+
+/-- `serviceblock.indexResp.toInternal`: every element is converted, errors are collected and
+joined at the end (one bad element refuses the whole index).  `nilCheck` = the tree with the fix
+"a null service is an error"; without it the first `null` element dereferences a nil pointer,
+whatever errors were collected before it. -/
+def svcConvert (nilCheck : Bool) (es : List SvcEntry) : SvcRes :=
+  if !nilCheck && es.contains .null then .panic
+  else if es.all (· == .ok) then .ok
+  else .err
+
 /-- The meaning of contents. -/
 structure Env where
   /-- length in bytes -/
   len : Nat → Nat
   /-- a content read as a rule-list index: `none` when it is not a JSON index document -/
   idx : Nat → Option (List Entry)
-  /-- a content read as a blocked-service index decodes and every service in it converts -/
-  svcOk : Nat → Bool
+  /-- a content read as a blocked-service index: `none` when it is not a JSON document of that
+  shape -/
+  svc : Nat → Option (List SvcEntry)
   /-- `hashprefix.Storage.Reset` accepts the content -/
   hashOk : Nat → Bool
 
@@ -104,6 +132,15 @@ structure Cfg where
   /-- `true` = the tree with the fix "keep the previous rule list when its index entry is
   invalid"; `false` = the tree as found. -/
   keepInvalid : Bool
+  /-- `true` = the tree with the fix "a null blocked service is an error, not a nil dereference";
+  `false` = the tree as found. -/
+  svcNilCheck : Bool
+
+/-- `serviceblock.Filter.Refresh` after the text has been obtained: decode, convert. -/
+def svcResult (E : Env) (cfg : Cfg) (c : Nat) : SvcRes :=
+  match E.svc c with
+  | none => .err
+  | some es => svcConvert cfg.svcNilCheck es
 
 /-- The state of `filterstorage.Default` and of its cache directory. -/
 structure St where
@@ -200,10 +237,59 @@ def refreshStorage (E : Env) (cfg : Cfg) (s : St) (R : Round) : St × Bool :=
         match sr.1 with
         | none => ({ s with idxDisk := ir.2, rlDisk := a.disk, svcDisk := sr.2 }, false)
         | some c =>
-          if E.svcOk c then
+          if svcResult E cfg c = .ok then
             ({ idxDisk := ir.2, rlDisk := a.disk, svcDisk := sr.2, svc := some c, rl := a.new },
               true)
           else ({ s with idxDisk := ir.2, rlDisk := a.disk, svcDisk := sr.2 }, false)
+
+/-- `Default.refresh` panics (a nil `*indexRespService` is dereferenced) instead of returning: the
+index was obtained and decoded, the lists were handled, the service index text was obtained, and
+its conversion hits a `null` element on a tree without the nil check.  The files are then as
+`refreshStorage` says (the service index has been stored before it is decoded), memory is as
+before — but the refresh goroutine is gone, and a restart reads the same file again. -/
+def refreshPanics (E : Env) (cfg : Cfg) (s : St) (R : Round) : Bool :=
+  match (refresh E cfg.idxMax R.acceptStale s.idxDisk R.idxFresh R.idxResp).1 with
+  | none => false
+  | some d =>
+    match E.idx d with
+    | none => false
+    | some _ =>
+      cfg.svcEnabled &&
+        match (refresh E cfg.svcMax R.acceptStale s.svcDisk R.svcFresh R.svcResp).1 with
+        | none => false
+        | some c => decide (svcResult E cfg c = .panic)
+
+/-! ### A context cancelled during the round
+
+`Default.refresh` looks at `ctx.Err()` after every `addRuleList` and returns the error, before
+`keepInvalidRuleLists`, the services and `resetRuleLists`.  The context is modelled as cancelled
+by the server at the moment the request for URL `u` arrives (the deadline of the refresh worker
+expiring during that download): that download fails, and the loop is left.  Here the order in which
+the entries are walked matters; the driver is given the entries in the sorted order of
+`loadIndex`. -/
+
+/-- The loop over the validated entries up to the entry whose download cancels the context:
+the accumulator at that point and whether the context was cancelled. -/
+def addUntilCancel (E : Env) (cfg : Cfg) (R : Round) (old : Nat → Option Nat) (u : Nat) :
+    Acc → List Entry → Acc × Bool
+  | a, [] => (a, false)
+  | a, e :: es =>
+    if (a.new e.key).isSome then addUntilCancel E cfg R old u a es
+    else if e.url = u ∧ fromFile E R.acceptStale (R.fresh e.key) (a.disk e.key) = none then (a, true)
+    else addUntilCancel E cfg R old u (addRuleList E cfg R old a e) es
+
+/-- `Default.refresh` in a round in which the request for rule-list URL `u` cancels the context. -/
+def refreshStorageCancel (E : Env) (cfg : Cfg) (s : St) (R : Round) (u : Nat) : St × Bool :=
+  let ir := refresh E cfg.idxMax R.acceptStale s.idxDisk R.idxFresh R.idxResp
+  match ir.1 with
+  | none => ({ s with idxDisk := ir.2 }, false)
+  | some d =>
+    match E.idx d with
+    | none => ({ s with idxDisk := ir.2 }, false)
+    | some es =>
+      let r := addUntilCancel E cfg R s.rl u ⟨fun _ => none, s.rlDisk⟩ (toInternal es)
+      if r.2 then ({ s with idxDisk := ir.2, rlDisk := r.1.disk }, false)
+      else refreshStorage E cfg s R
 
 /-- A process restart: memory is gone, the cache directory stays. -/
 def restart (s : St) : St := { s with rl := fun _ => none, svc := none }
